@@ -288,3 +288,39 @@ def gen_odd_lot(rng, opts=None):
     scn['script'] = script
     scn['start_i'], scn['end_i'] = 1, nd - 2
     return scn
+
+
+def gen_odd_cap(rng, opts=None):
+    """An odd-lot holding (created by a split) liquidated in full inside a thin bar under the volume cap, followed - in the same bar, on the
+    same instrument - by orders larger than what is left of the bar's allowance: the bar's turnover is then not a whole number of lots."""
+    wopts = dict(ndays=rng.randint(9, 12), actions=False, futures=False, expiry=False)
+    scn = gen_trading(rng, dict(freq='1d', stocks=1, futures=False, flows=False, world=wopts, actions_per_phase=(0,), p_cancel=0.0))
+    sid = W.STOCKS[0]
+    scn['meta']['active_stocks'] = [sid]
+    w = W.gen_world(random.Random(scn['world_seed']), scn['world_opts'])
+    nd = len(w.days)
+    split_i = rng.randint(3, 4)
+    ratio = rng.choice([1.25, 1.5, 1.15])
+    scn['world_overrides'] = dict(splits={sid: [[W.dint(w.days[split_i]), ratio]]}, dividends={sid: []},
+                                  volume={sid: rng.choice([4000, 4000, 3000, 8000, 1000])})
+    sim = scn['cfg']['mod']['sys_simulation']
+    sim.update(volume_limit=True, volume_percent=rng.choice([0.25, 0.1, 0.5]), price_limit=False, inactive_limit=False, slippage=0,
+               matching_type=rng.choice(['current_bar', 'vwap']))
+    scn['cfg']['base']['accounts'] = {'stock': 100000000}
+    scn['cfg']['mod']['sys_accounts'].update(stock_t1=rng.random() < 0.5)
+    scn['cfg']['mod']['sys_risk']['validate_cash'] = False
+    script = {'1|handle_bar|0': [dict(op='order_shares', id=sid, amt=rng.choice([100, 200, 600, 300]), style='mkt')]}
+    for d in range(split_i + 1, nd - 1):
+        acts = []
+        r = rng.random()
+        if r < 0.8:
+            acts.append(dict(op=rng.choice(['order_target_percent', 'order_target_value']), id=sid, amt=0, style='mkt'))   # sells the whole (odd) holding
+        for _ in range(rng.randint(1, 3)):
+            big = rng.choice([10 ** 7, 10 ** 8, 5 * 10 ** 6])
+            acts.append(dict(op='order_shares', id=sid, amt=big, style=rng.choice(['mkt', ['lim', 1.05]])))
+        if rng.random() < 0.5:
+            acts.append(dict(op='order_shares', id=sid, amt=rng.choice([100, 300]), style='mkt'))
+        script['%d|%s|0' % (d, rng.choice(['handle_bar', 'handle_bar', 'open_auction']))] = acts
+    scn['script'] = script
+    scn['start_i'], scn['end_i'] = 1, nd - 2
+    return scn
